@@ -124,6 +124,8 @@ function pdv(i){var d=D[i],x,y;try{x=d.byteLength;}catch(e){x=e;}try{y=d.byteOff
 function parr(r,C,ints){var a=["R","arr",Object.getPrototypeOf(r)===C.prototype,r.length,r.byteOffset];
  if(ints)for(var j=0;j<r.length;j++)a.push(r[j]);
  a.push("|");var u=new Uint8Array(r.buffer,r.byteOffset,r.byteLength);for(var j=0;j<u.length;j++)a.push(u[j]);print.apply(null,a);}
+function pv(i,L){var v=V[i];print("V",i,v.length,v.byteLength,v.byteOffset,v[-1],v[0],v[L-1],v[L],v[4294967296],v["-0"],v[0.5]);}
+function pr(i){var v=V[i];print("V",i,v.length,v.byteLength,v.byteOffset);}
 function pview(r,C,same){print("R","view",Object.getPrototypeOf(r)===C.prototype,same,r.length,r.byteLength,r.byteOffset);}
 """
 
@@ -165,11 +167,10 @@ def probes(obs):
     for i, v in enumerate(obs["v"]):
         L = v["len"]
         if v["e"]:
-            js.append(f'print("V",{i},V[{i}].length,V[{i}].byteLength,V[{i}].byteOffset,V[{i}][-1],V[{i}][0],V[{i}][{L - 1}],V[{i}][{L}],'
-                      f'V[{i}][4294967296],V[{i}]["-0"],V[{i}][0.5]);')
+            js.append(f"pv({i},{L});")
             exp.append(" ".join(["s:V", f"n:{i}", f"n:{L}", f"n:{v['blen']}", f"n:{v['boff']}"] + [exp_enc(e) for e in v["e"]]))
         else:
-            js.append(f'print("V",{i},V[{i}].length,V[{i}].byteLength,V[{i}].byteOffset);')
+            js.append(f"pr({i});")
             exp.append(" ".join(["s:V", f"n:{i}", f"n:{L}", f"n:{v['blen']}", f"n:{v['boff']}"]))
     for i, d in enumerate(obs["d"]):
         js.append(f"pdv({i});")
@@ -319,8 +320,10 @@ NONTRIVIAL_TAGS = {"oob", "det", "rz", "ovl", "ev"}
 def op_sig(op):
     """Canonical compact form of a resolved operation (part of behaviour signatures)."""
     def a(x):
-        if isinstance(x, dict) and "k" in x:
+        if isinstance(x, dict) and x.get("k") in ("fin", "nan", "pinf", "ninf", "nz", "undef"):
             return js_num(x)
+        if isinstance(x, dict):
+            return {k: a(v) for k, v in sorted(x.items())}
         if isinstance(x, list):
             return [a(y) for y in x]
         return x
@@ -390,10 +393,11 @@ def conversion_signature(rec, views_types, exp_lines, act_lines):
 
 # ------------------------------------------------------------------ replay workers (separate processes)
 
-def _run_batch(hbuf, batch):
-    """batch: list of (id, [js...], [[expected lines]...]).  Returns list of (id, first bad step | -1, actual | how)."""
+def _run_batch(hbuf, batch, fresh=False):
+    """batch: list of (id, [js...], [[expected lines]...]).  Returns list of (id, first bad step | -3, actual | how).
+    fresh: one engine context per scenario (confirmation runs) instead of one per 64 scenarios."""
     scen = [{"id": sid, "steps": steps} for sid, steps, _ in batch]
-    res = vlib.run_lines(hbuf, scen)
+    res = vlib.run_lines(hbuf, scen, env_extra={"HBUF_GROUP": "1" if fresh else "64"})
     out = []
     for sid, steps, exps in batch:
         r = res.get(sid)
@@ -644,7 +648,7 @@ def replay_recs(hbuf, items):
         batch.append((key, [x[0] for x in rs], [x[1] for x in rs]))
     res = {}
     for i in range(0, len(batch), 400):
-        for sid, step, actual in _run_batch(hbuf, batch[i:i + 400]):
+        for sid, step, actual in _run_batch(hbuf, batch[i:i + 400], fresh=True):
             res[sid] = (step, actual)
     return {k: res.get(k, (-1, None)) for k, _ in items}
 
@@ -704,14 +708,25 @@ def shrink(hbuf, recs, step, budget=6):
 # ------------------------------------------------------------------ the check
 
 QUICK = [  # (name, cfg, workers)
-    ("G", "MCBuffers_G2.cfg", 3), ("C", "MCBuffers_C1.cfg", 2), ("O", "MCBuffers_O1.cfg", 1),
-    ("X", "MCBuffers_X1.cfg", 2), ("F", "MCBuffers_F1.cfg", 1)]
+    ("G", "MCBuffers_G2.cfg", 3), ("E", "MCBuffers_E1.cfg", 2), ("C", "MCBuffers_C1.cfg", 2), ("O", "MCBuffers_O1.cfg", 1),
+    ("X", "MCBuffers_X1.cfg", 1), ("F", "MCBuffers_F1.cfg", 1)]
 THOROUGH = [
-    ("G", "MCBuffers_G3.cfg", 4), ("C", "MCBuffers_C1.cfg", 2), ("O", "MCBuffers_O2.cfg", 2),
+    ("G", "MCBuffers_G3.cfg", 4), ("E", "MCBuffers_E2.cfg", 3), ("C", "MCBuffers_C1.cfg", 2), ("O", "MCBuffers_O2.cfg", 2),
     ("X", "MCBuffers_X2.cfg", 2), ("F", "MCBuffers_F2.cfg", 2)]
 ACTIONS = ["Resize", "Grow", "Transfer", "Detach", "BufSlice", "NewView", "NewDataView", "GetElem", "SetElem", "FloatCopy",
            "Fill", "CopyWithin", "SetFromList", "SetFromTA", "Subarray", "Slice", "FromTA", "FromList", "DvGet", "DvSet"]
 FLOOR = {"quick": 5000, "thorough": 30000}
+
+
+def abort_class(how):
+    """Panic / abort message without the numbers and without the checkout prefix and line of the location."""
+    import re
+    msg, _, loc = how.partition(" @ ")
+    msg = re.sub(r"\d+", "N", msg)[:160]
+    loc = re.sub(r":\d+$", "", loc)
+    if "core/engine/" in loc:
+        loc = loc[loc.index("core/engine/"):]
+    return f"{msg} @ {loc}" if loc else msg
 
 
 def analyse(ck, hbuf, failures):
@@ -757,7 +772,8 @@ def analyse(ck, hbuf, failures):
     for h, st, act, aborted in confirmed:
         rec = h[st]
         if aborted:
-            sig = {"class": "abort", "op": op_sig(rec["op"]), "how": str(act)[:120]}
+            sig = {"class": "abort", "op": rec["op"]["k"], "side_effect": (rec["op"].get("ev") or {}).get("k", "none"),
+                   "how": abort_class(str(act))}
             ck.failure(sig, {"how": act, **describe(h, st, None)})
             continue
         js, exp = render_step(rec)
@@ -788,6 +804,9 @@ def run(tier, replay=None):
     if replay:
         return run_replay(ck, hbuf, replay)
     fams = QUICK if tier == "quick" else THOROUGH
+    only = os.environ.get("C15_ONLY")          # development only: restrict to some families, no vacuity floors
+    if only:
+        fams = [f for f in fams if f[0] in only.split(",")]
     rp = Replayer(hbuf, procs=6 if tier == "quick" else 8)
     stats = new_stats()
     results = {}
@@ -803,12 +822,9 @@ def run(tier, replay=None):
 
     t0 = time.time()
     threads = [threading.Thread(target=job, args=f) for f in fams]
-    if tier == "thorough":
-        threads.append(threading.Thread(target=job, args=("R", "MCBuffers_R.cfg", 2),
-                                        kwargs=dict(simulate=1500, depth=13, tseed=vlib.seed())))
-    else:
+    if not only or "R" in only.split(","):
         threads.append(threading.Thread(target=job, args=("R", "MCBuffers_R.cfg", 1),
-                                        kwargs=dict(simulate=150, depth=13, tseed=vlib.seed())))
+                                        kwargs=dict(simulate=4000 if tier == "thorough" else 300, depth=13, tseed=vlib.seed())))
     for t in threads:
         t.start()
     for t in threads:
@@ -844,6 +860,8 @@ def run(tier, replay=None):
                        "out of bounds, on a detached buffer or on a buffer resized under it, or an overlapping copy")
     for s in stats["samples"]:
         ck.sample(s)
+    if only:
+        return ck.finish()
     if stats["nontrivial"] < FLOOR[tier]:
         raise vlib.ToolError(f"vacuity guard: only {stats['nontrivial']} non-trivial histories")
     for t in ("oob", "det", "rz", "ovl"):
